@@ -68,6 +68,20 @@ def handleUdpSrv (out : List String) : Verdict :=
     let ok := lives.all (· == "alive") && n ≤ lives.length
     verdict true ok (if lives.all (· == "alive") then "sig=udp-more-than-one-reply" else "sig=udp-server-dead")
 
+/-- `stall:<S>:<F>` of the stall measurements (`cstall`: browser port, `cstallhttp`: REST port) -/
+def handleStall (out : List String) : Verdict :=
+  match out with
+  | [tok] =>
+    (match tok.splitOn ":" with
+     | ["stall", s, f] =>
+       (match s.toNat?, f.toNat? with
+        | some s, some f => if s < f then .agree
+          else if f ≤ 8000000 then .agree   -- the reading client itself was cut short (a stalled machine): nothing to judge
+          else .disagreeFails s!"sig=tcp-write-not-bounded the stalled client received the whole reply ({s} of {f} bytes)"
+        | _, _ => .bad "C06 cstall numbers")
+     | _ => .bad s!"C06 cstall: {tok}")
+  | _ => .bad "C06 cstall shape"
+
 def handle (args out : List String) : Verdict :=
   match args with
   | ["tcp", k, payload] => handleTcp k payload out
@@ -77,6 +91,10 @@ def handle (args out : List String) : Verdict :=
   | ["tcp6", k, payload] => handleTcp k payload out
   -- through the real browser component; `idle` (nothing sent, nothing closed): the handler's read ends with the
   -- connection deadline the TCP server set, like an empty read
+  -- measurement: a client that asks for a reply far larger than the socket buffers and does not read.  `stall:<S>:<F>`:
+  -- F bytes to a client that reads, S bytes to one that stalls past the client timeout: the server must have given up (S < F)
+  | ["cstall", _, _] => handleStall out
+  | ["cstallhttp", _, _] => handleStall out
   | ["ctcp", k, payload] => handleTcp k (if payload = "idle" then "none" else payload) out
   -- measurement: `crypt.Encrypt` under the concurrency of the connection goroutines (no model: the oracle is "no panic, every round trip exact")
   | ["encpar", _, _] =>
